@@ -401,7 +401,7 @@ Lemma backoff_done_step fe fc fl x y n : hold x = HBackoff n -> st x <> Closed -
   hold y = HAwaitImpl (S n) /\ attempts y = S (attempts x) /\ lock y = true /\ st y = st x.
 Proof.
   intros A C. destruct x; cbn in *. subst.
-  time step_cases ltac:(try congruence; auto).
+  step_cases ltac:(try congruence; auto).
 Qed.
 
 Lemma connect_ok_step fe fl x y cb : st x <> Closed -> trans k fe true fl x (AImplOk cb) = Some y ->
@@ -413,7 +413,7 @@ Lemma connect_ok_step fe fl x y cb : st x <> Closed -> trans k fe true fl x (AIm
   end.
 Proof.
   unfold rx_alive. intros C. destruct x; cbn in *.
-  time step_cases ltac:(try congruence; repeat split; try congruence; try discriminate; auto).
+  step_cases ltac:(try congruence; repeat split; try congruence; try discriminate; auto).
 Qed.
 
 (* when the connect() coroutine that owns the lock finishes: CLOSED, or a fresh receive task has been created
@@ -430,7 +430,7 @@ Lemma rx_start_step fe fc fl x y : st x <> Closed -> trans k fe fc fl x ARxStart
   rx x = RCreated /\ rx y = RRun.
 Proof.
   intros C. destruct x; cbn in *.
-  time step_cases ltac:(try congruence; auto).
+  step_cases ltac:(try congruence; auto).
 Qed.
 
 
@@ -749,6 +749,51 @@ Proof.
   specialize (IH z y (reachable_step _ _ _ _ _ _ _ H Z) E' B2 S). lia.
 Qed.
 End AllRuns.
+
+(* ------------------------------------------------------------------------------------------------ *)
+(** * C13 (b): the reconnect machinery is never stuck *)
+
+Section Progress.
+Variable k : kind.
+Notation T := (trans k true true true).
+
+Lemma not_busy_allowed x a : busy x = false -> allowed x a = true.
+Proof. unfold busy, allowed. destruct (rx x), (cons x); simpl; intros; try discriminate; destruct a; reflexivity. Qed.
+
+Definition reconnect_step (a : act) : Prop :=
+  match a with
+  | AConnEntry _ | AImplFail _ | ABackoffDone | AConnCbDone | ACancelWaitDone | ARxCbDone | ASendCbDone => True
+  | _ => False
+  end.
+
+(* the reconnect machinery is never stuck: whenever a reconnect is pending and no task is in the middle of a step,
+   one of its steps is enabled (for the attempt in flight: the step "the attempt fails"; "it succeeds" is enabled too) *)
+Theorem reconnect_progress x : hold_lock_ok x -> busy x = false -> reconnect_pending x ->
+  exists a y, reconnect_step a /\ T x a = Some y.
+Proof.
+  unfold hold_lock_ok, reconnect_pending. intros A B [L|[P|[[R C]|S]]].
+  - rewrite L in A. destruct (hold x) as [|n|n|n| |] eqn:H; try discriminate A.
+    + exists (AImplFail (wait2 (Z.of_nat n))). eexists. split; [exact I|].
+      unfold trans. rewrite (not_busy_allowed x _ B), H. simpl. rewrite Z.eqb_refl. reflexivity.
+    + exists (AImplFail (wait2 (Z.of_nat n))). eexists. split; [exact I|].
+      unfold trans. rewrite (not_busy_allowed x _ B), H. simpl. rewrite Z.eqb_refl. reflexivity.
+    + exists ABackoffDone. unfold trans. rewrite (not_busy_allowed x _ B), H. simpl.
+      unfold is_closed. destruct (cst_eqb (st x) Closed); eexists; (split; [exact I|reflexivity]).
+    + exists AConnCbDone. eexists. split; [exact I|]. unfold trans. rewrite (not_busy_allowed x _ B), H. reflexivity.
+    + exists ACancelWaitDone. eexists. split; [exact I|]. unfold trans. rewrite (not_busy_allowed x _ B), H. reflexivity.
+  - exists (AConnEntry (cst_eqb (st x) Disc && negb (lock x))).
+    unfold trans. rewrite (not_busy_allowed x _ B).
+    destruct (pending_connects x) as [|n] eqn:E; [lia|]. cbn.
+    rewrite Bool.eqb_reflx. destruct (cst_eqb (st x) Disc && negb (lock x)); eexists; (split; [exact I|reflexivity]).
+  - exists ARxCbDone. eexists. split; [exact I|]. unfold trans. rewrite (not_busy_allowed x _ B), R, C. reflexivity.
+  - exists ASendCbDone. unfold trans. rewrite (not_busy_allowed x _ B). simpl.
+    destruct (send_cb x) as [|n] eqn:E; [lia|]. eexists. split; [exact I|reflexivity].
+Qed.
+
+Theorem reconnect_progress_reachable x : reachable k true true true x -> busy x = false -> reconnect_pending x ->
+  exists a y, reconnect_step a /\ T x a = Some y.
+Proof. intros H. apply R0 in H. destruct H as (A & _). now apply reconnect_progress. Qed.
+End Progress.
 
 (* ------------------------------------------------------------------------------------------------ *)
 (** * The code as it was: the three defects as runs of the model with the repair switched off *)
